@@ -139,6 +139,21 @@ def run(v, tier, seed, replay):
                     kind, _, h = val.partition(":")
                     if kind == "lit" and unhex(h) != rv:
                         mism.append((c, "model emits literal %r for property %r, the real macro produced %r" % (unhex(h), rk, rv)))
+    # an annotated function panics, the panic is caught inside the caller's scope, further annotated calls follow
+    d = by.get("caught")
+    if ok:
+        if d is None:
+            tls_fails.append("the caught-panic twin produced no result (harness died?)")
+        else:
+            if d["plain"] != d["traced"] or d["plain"] != d["bare"] or d["plainlog"] != d["tracedlog"] or d["plainlog"] != d["barelog"]:
+                tls_fails.append("annotated functions around a caught panic returned %r with side effects %r; the plain twins %r / %r" % (d["traced"], d["tracedlog"], d["plain"], d["plainlog"]))
+            names = sorted(rn.rsplit("::", 1)[-1] for rn, _, _ in d["recs"])
+            if names != ["follow_traced", "follow_traced", "panicky_traced"] or d["barerecs"]:
+                tls_fails.append("a caught panic in an annotated function: recorded %r (without a local parent: %r); expected one span for the panicking call and one per later call" % (d["recs"], d["barerecs"]))
+            for rn, par, _ in d["recs"]:
+                if par != "root":
+                    tls_fails.append("after a panic in an annotated function was caught inside the caller's scope, span %r is not a child of the caller's local parent" % rn)
+                    break
     # D15 (fixed): a hand-written function returning a boxed future, with statements before the `Box::pin(async move ..)` tail
     d = by.get("boxed")
     if ok:
